@@ -7,6 +7,9 @@ pids=${@:-$(ls seeded)}
 for pid in $pids; do
   for s in seeded/$pid/*/; do
     [ -f "$s/patch.diff" ] || continue
+    if python3 -c "import json,sys; sys.exit(0 if 'neutralised' in json.load(open('$s/meta.json')) else 1)" 2>/dev/null; then
+      echo "$pid $(basename $s) NEUTRALISED by a later repair (see meta.json), skipped"; continue
+    fi
     cp=$(python3 -c "import json,sys; print(json.load(open('$s/meta.json')).get('check_property', json.load(open('$s/meta.json')).get('verification',{}).get('caught_by_check_of_property','$pid')))" 2>/dev/null || echo $pid)
     (res=$(MUT_LINES=40 tools/mutest.sh $s/patch.diff $cp ${TIER:-quick} 2>&1); rc=$(echo "$res" | grep -o 'exit=[0-9]*' | tail -1)
     case $rc in exit=1) v=CAUGHT;; exit=0) v=ESCAPED;; *) v="?? $rc";; esac
